@@ -102,13 +102,31 @@ def expected_formats(parinfo):
                 if src.ptag(sib) == 'w:r':
                     if any(src.ptag(d) == 'w:r' for k in sib for d in k.iter()): nested_before = True; break
                 elif src.ptag(sib) in ('w:hyperlink', 'w:sdt', 'w:ins', 'w:moveTo', 'w:moveFrom', 'w:smartTag', 'w:fldSimple', 'w:dir', 'w:bdo', 'w:customXml', 'm:oMath', 'm:oMathPara'): break
+        # (text that follows a TEXT BOX inside its run, when that run is collected into an implicit paragraph - it stands in a hyperlink,
+        # whose children are extracted one by one, or outside every paragraph: the text-box paragraph concludes the implicit paragraph
+        # and the text after it starts an unformatted run: known finding)
+        def outside_par(run_):
+            for a in run_.iterancestors():
+                if src.ptag(a) == 'w:hyperlink': return True
+                if src.ptag(a) == 'w:p': return False
+            return True
+        box_before = False
+        if src.ptag(run) == 'w:r' and outside_par(run):
+            box_before = any(src.ptag(d) == 'w:p' for sib in x.itersiblings(preceding=True) for d in sib.iter())
+            if not box_before:
+                for sib in run.itersiblings(preceding=True):
+                    if src.ptag(sib) == 'w:r':
+                        if any(src.ptag(d) == 'w:p' for d in sib.iter()): box_before = True; break
+                    elif src.ptag(sib) in ('w:hyperlink', 'w:sdt', 'w:ins', 'w:moveTo', 'w:moveFrom', 'w:smartTag', 'w:fldSimple', 'w:dir', 'w:bdo', 'w:customXml', 'm:oMath', 'm:oMathPara'): break
         for tok in src.TOKEN.findall(x.text):
             res[tok] = frozenset(f)
             if nested_before: AFTER_NESTED_RUN.add(tok)
+            if box_before: AFTER_BOX.add(tok)
     return res
 
 
 AFTER_NESTED_RUN = set()
+AFTER_BOX = set()
 
 
 def one(ctx, data, meta=None):
@@ -134,7 +152,7 @@ def one(ctx, data, meta=None):
                 for st in list(r.get('hs') or []) + [x for run in (r.get('rs') or []) for x in run[0]]:
                     okst = ('<' not in st) and ('>' not in st) and st[:1] not in ('', '/', ' ', '\t', '\n', '\r', '\x0b', '\x0c')
                     ctx.count('style string satisfies GoodStyle' if okst else 'style string outside GoodStyle (theorem hypothesis not met)')
-    exp = {}; AFTER_NESTED_RUN.clear()
+    exp = {}; AFTER_NESTED_RUN.clear(); AFTER_BOX.clear()
     for path, root in parts.items():
         for p in src.paragraphs(root, path):
             if not p.in_link: exp.update(expected_formats(p))
@@ -154,7 +172,7 @@ def one(ctx, data, meta=None):
                 if tok in exp and exp[tok] != f:
                     ctx.fail('tags around a stretch of text are not exactly its recognised formatting switched on', c,
                              {'token': tok, 'expected': sorted(exp[tok]), 'observed': sorted(f), 'html': h},
-                             features=['text-after-nested-run'] if tok in AFTER_NESTED_RUN else []); good = False
+                             features=['text-after-text-box-in-implicit-run'] if tok in AFTER_BOX else ['text-after-nested-run'] if tok in AFTER_NESTED_RUN else []); good = False
     if good: ctx.validated += 1
     if meta and meta['stats'].get('rPr', 0) >= 3: ctx.nontrivial(jhash(data.hex()))
     return good
